@@ -515,6 +515,26 @@ auto cpc_sketch_alloc<A>::serialize(unsigned header_size_bytes) const -> vector_
   return bytes;
 }
 
+// The sizes announced by an image must fit a sketch of this lg_k. Checked before anything is allocated or decoded.
+template<typename A>
+static inline void check_cpc_image_sizes(uint8_t lg_k, uint32_t num_coupons, uint32_t table_num_entries,
+    uint32_t table_data_words, uint32_t window_data_words) {
+  const uint64_t k = 1ULL << lg_k;
+  if (num_coupons > 64 * k || table_num_entries > 64 * k) {
+    throw std::invalid_argument("Possible corruption: more coupons than cells in the bit matrix");
+  }
+  if (window_data_words > cpc_compressor<A>::safe_length_for_compressed_window_buf(static_cast<uint32_t>(k))) {
+    throw std::invalid_argument("Possible corruption: window data words: " + std::to_string(window_data_words));
+  }
+  if (table_data_words > 0) {
+    if (table_num_entries == 0) throw std::invalid_argument("Possible corruption: table data without entries");
+    const uint8_t num_base_bits = cpc_compressor<A>::golomb_choose_number_of_base_bits(static_cast<uint32_t>(k) + table_num_entries, table_num_entries);
+    if (table_data_words > cpc_compressor<A>::safe_length_for_compressed_pair_buf(static_cast<uint32_t>(k), table_num_entries, num_base_bits)) {
+      throw std::invalid_argument("Possible corruption: table data words: " + std::to_string(table_data_words));
+    }
+  }
+}
+
 template<typename A>
 cpc_sketch_alloc<A> cpc_sketch_alloc<A>::deserialize(std::istream& is, uint64_t seed, const A& allocator) {
   const auto preamble_ints = read<uint8_t>(is);
@@ -524,6 +544,8 @@ cpc_sketch_alloc<A> cpc_sketch_alloc<A>::deserialize(std::istream& is, uint64_t 
   const auto first_interesting_column = read<uint8_t>(is);
   const auto flags_byte = read<uint8_t>(is);
   const auto seed_hash = read<uint16_t>(is);
+  if (!is.good()) throw std::runtime_error("error reading from std::istream");
+  check_lg_k(lg_k);
   const bool has_hip = flags_byte & (1 << flags::HAS_HIP);
   const bool has_table = flags_byte & (1 << flags::HAS_TABLE);
   const bool has_window = flags_byte & (1 << flags::HAS_WINDOW);
@@ -553,6 +575,9 @@ cpc_sketch_alloc<A> cpc_sketch_alloc<A>::deserialize(std::istream& is, uint64_t 
       kxp = read<double>(is);
       hip_est_accum = read<double>(is);
     }
+    if (!is.good()) throw std::runtime_error("error reading from std::istream");
+    if (!has_window) compressed.table_num_entries = num_coupons;
+    check_cpc_image_sizes<A>(lg_k, num_coupons, compressed.table_num_entries, compressed.table_data_words, compressed.window_data_words);
     if (has_window) {
       compressed.window_data.resize(compressed.window_data_words);
       read(is, compressed.window_data.data(), compressed.window_data_words * sizeof(uint32_t));
@@ -561,7 +586,7 @@ cpc_sketch_alloc<A> cpc_sketch_alloc<A>::deserialize(std::istream& is, uint64_t 
       compressed.table_data.resize(compressed.table_data_words);
       read(is, compressed.table_data.data(), compressed.table_data_words * sizeof(uint32_t));
     }
-    if (!has_window) compressed.table_num_entries = num_coupons;
+    if (!is.good()) throw std::runtime_error("error reading from std::istream");
   }
 
   uint8_t expected_preamble_ints = get_preamble_ints(num_coupons, has_hip, has_table, has_window);
@@ -610,6 +635,7 @@ cpc_sketch_alloc<A> cpc_sketch_alloc<A>::deserialize(const void* bytes, size_t s
   ptr += copy_from_mem(ptr, flags_byte);
   uint16_t seed_hash;
   ptr += copy_from_mem(ptr, seed_hash);
+  check_lg_k(lg_k);
   const bool has_hip = flags_byte & (1 << flags::HAS_HIP);
   const bool has_table = flags_byte & (1 << flags::HAS_TABLE);
   const bool has_window = flags_byte & (1 << flags::HAS_WINDOW);
@@ -646,17 +672,18 @@ cpc_sketch_alloc<A> cpc_sketch_alloc<A>::deserialize(const void* bytes, size_t s
       ptr += copy_from_mem(ptr, kxp);
       ptr += copy_from_mem(ptr, hip_est_accum);
     }
+    if (!has_window) compressed.table_num_entries = num_coupons;
+    check_cpc_image_sizes<A>(lg_k, num_coupons, compressed.table_num_entries, compressed.table_data_words, compressed.window_data_words);
     if (has_window) {
-      compressed.window_data.resize(compressed.window_data_words);
       check_memory_size(ptr - base + (compressed.window_data_words * sizeof(uint32_t)), size);
+      compressed.window_data.resize(compressed.window_data_words);
       ptr += copy_from_mem(ptr, compressed.window_data.data(), compressed.window_data_words * sizeof(uint32_t));
     }
     if (has_table) {
-      compressed.table_data.resize(compressed.table_data_words);
       check_memory_size(ptr - base + (compressed.table_data_words * sizeof(uint32_t)), size);
+      compressed.table_data.resize(compressed.table_data_words);
       ptr += copy_from_mem(ptr, compressed.table_data.data(), compressed.table_data_words * sizeof(uint32_t));
     }
-    if (!has_window) compressed.table_num_entries = num_coupons;
   }
   if (ptr != static_cast<const char*>(bytes) + size) throw std::logic_error("deserialized size mismatch");
 
